@@ -2,7 +2,15 @@
 """Regenerates MANIFEST.json from lib/manifest_data.py (kept valid at all times)."""
 import json, os, sys
 sys.path.insert(0, os.path.dirname(os.path.abspath(__file__)))
-from manifest_data import CHECKS, NOT_APPLICABLE
+from manifest_data import NOT_APPLICABLE
+import importlib
+CHECKS = {}
+for i in range(1, 33):
+    pid = "C%02d" % i
+    if os.path.exists(os.path.join(os.path.dirname(os.path.abspath(__file__)), "props", pid.lower() + ".py")):
+        mod = importlib.import_module("props." + pid.lower())
+        if getattr(mod, "MANIFEST", None):
+            CHECKS[pid] = mod.MANIFEST
 V = os.path.dirname(os.path.dirname(os.path.abspath(__file__)))
 ids = [json.loads(l)["id"] for l in open(os.path.join(V, "properties.jsonl"))]
 checks = []
